@@ -597,14 +597,13 @@ Definition trace (c : cfg) (ops : list msg) : list event := snd (run c init ops)
 (* ------------------------------------------------------------------------- *)
 (** * E. which settings a connected session uses across a RELOAD                *)
 
-(** QueryRouter.pool_settings of a session are the registered pool's settings as of the
-    session's last CHECKOUT (client.rs: [pool = self.get_pool(); query_router.
-    update_pool_settings(&pool.settings)] sits between the outer match and [pool.get]).
-    A statement is therefore judged by the plugins section of the file that was in force at
-    the session's previous checkout, with one exception: a simple Query that passes the
-    outer loop is judged again by the transaction loop, after the refresh.
-    [vold] / [vnew]: the statement's verdict under the settings the router holds / under
-    the registered (reloaded) ones.  [fresh]: the router holds the registered settings. *)
+(** Since c3cef0c Client::handle refreshes [pool] and [query_router.update_pool_settings]
+    when a message ARRIVES in the outer loop (before handle_custom_protocol / parse /
+    plugins): every statement an idle session sends after a RELOAD is judged by the
+    registered (new) plugins section.  (Inside a transaction - server held - nothing is
+    refreshed until the transaction ends; the reload family reloads between transactions.)
+    [vold] / [vnew]: the statement's verdict under the settings the router held before /
+    under the registered ones.  [fresh]: the router holds the registered settings. *)
 Inductive rop := RReload | RQ (vold vnew : verdict) | RBatch (vold vnew : verdict).
 Inductive rout := ONone | OFwd | ODeny (t : nat) | OIcpt (t : nat).
 Definition act (v : verdict) : rout :=
@@ -613,19 +612,29 @@ Definition act (v : verdict) : rout :=
 Definition rstep (fresh : bool) (o : rop) : bool * rout :=
   match o with
   | RReload => (false, ONone)
+  | RQ _ vnew | RBatch _ vnew => (true, act vnew)     (* refreshed on arrival, then judged *)
+  end.
+
+(** the behaviour before c3cef0c, kept as a mutant: settings were refreshed only at a
+    checkout; a simple Query that passed the outer loop was judged again, after the refresh,
+    by the transaction loop *)
+Definition rstep_old (fresh : bool) (o : rop) : bool * rout :=
+  match o with
+  | RReload => (false, ONone)
   | RQ vold vnew =>
       if fresh then (true, act vnew)
       else match vold with
-           | Allow => (true, act vnew)          (* checkout: refresh, then the transaction loop judges again *)
-           | _ => (false, act vold)             (* answered before any checkout: nothing is refreshed *)
+           | Allow => (true, act vnew)
+           | _ => (false, act vold)
            end
   | RBatch vold vnew =>
-      let v := if fresh then vnew else vold in  (* the Parse is judged when it arrives *)
+      let v := if fresh then vnew else vold in
       (match v with Allow => true | _ => fresh end, act v)
   end.
 
-Fixpoint rrun (fresh : bool) (ops : list rop) : list rout :=
+Fixpoint rrun_with (step : bool -> rop -> bool * rout) (fresh : bool) (ops : list rop) : list rout :=
   match ops with
   | [] => []
-  | o :: r => let '(f, out) := rstep fresh o in out :: rrun f r
+  | o :: r => let '(f, out) := step fresh o in out :: rrun_with step f r
   end.
+Definition rrun := rrun_with rstep.
